@@ -295,6 +295,13 @@ fn finish_run(sh: &mut Shared) {
     }
     let verdict = props::judge(&sh.work.property, &sc, &out, &rec);
     let hh = history_hash(&out);
+    if let Ok(want) = std::env::var("SIM_DUMP_RUN") {
+        if want.parse::<u64>().ok() == Some(cur.index) {
+            for (i, it) in out.log.iter().enumerate() {
+                eprintln!("{:5} {}", i, serde_json::to_string(it).unwrap_or_default());
+            }
+        }
+    }
 
     if let Some(rf) = &sh.replay_mode {
         let _ = rf;
